@@ -294,12 +294,21 @@ func (r *Reader) readMap(n datamodel.Node, path string) (val.V, error) {
 			return val.V{}, err
 		}
 		if r.Lookups {
-			forms := map[string]func() (datamodel.Node, error){
-				"LookupByString":    func() (datamodel.Node, error) { return n.LookupByString(ks) },
-				"LookupByNode(key)": func() (datamodel.Node, error) { return n.LookupByNode(kn) },
-				"LookupBySegment":   func() (datamodel.Node, error) { return n.LookupBySegment(datamodel.PathSegmentOfString(ks)) },
+			// by-string lookups on a typed map take the key's REPRESENTATION string (documented for maps with
+			// non-String key types: the key is assembled through its string representation), which differs from
+			// what the type-level key node reads as when, e.g., an enum key has a renamed member
+			lks := ks
+			if tk, ok := kn.(interface{ Representation() datamodel.Node }); ok {
+				if rs, err := tk.Representation().AsString(); err == nil {
+					lks = rs
+				}
 			}
-			if kn.Kind() == datamodel.Kind_String {
+			forms := map[string]func() (datamodel.Node, error){
+				"LookupByString":    func() (datamodel.Node, error) { return n.LookupByString(lks) },
+				"LookupByNode(key)": func() (datamodel.Node, error) { return n.LookupByNode(kn) },
+				"LookupBySegment":   func() (datamodel.Node, error) { return n.LookupBySegment(datamodel.PathSegmentOfString(lks)) },
+			}
+			if kn.Kind() == datamodel.Kind_String && lks == ks {
 				forms["LookupByNode(basic string)"] = func() (datamodel.Node, error) { return n.LookupByNode(basicnode.NewString(ks)) }
 			}
 			for form, get := range forms {
